@@ -225,6 +225,13 @@ class ProcessServlet(Servlet):
             p.start()
             name = q_out.get()
             if name is None:
+                # This worker failed to initialise. Stop the workers that have already
+                # been started, so that a failed `start` leaves nothing running.
+                if self._workers:
+                    q_in.put(None)
+                    for w in self._workers:
+                        w.join()
+                    self._workers = []
                 p.join()  # this will raise exception b/c worker __init__ failed
             self._workers.append(p)
             logger.debug('   ... worker <%s> is ready', name)
@@ -343,6 +350,13 @@ class ThreadServlet(Servlet):
             w.start()
             name = q_out.get()
             if name is None:
+                # This worker failed to initialise. Stop the workers that have already
+                # been started, so that a failed `start` leaves nothing running.
+                if self._workers:
+                    q_in.put(None)
+                    for ww in self._workers:
+                        ww.join()
+                    self._workers = []
                 w.join()  # this will raise exception b/c worker __init__ failed
             self._workers.append(w)
             logger.debug('   ... worker <%s> is ready', name)
@@ -432,7 +446,14 @@ class SequentialServlet(Servlet):
                 self._qs.append(q2)
             else:
                 q2 = q_out
-            s.start(q1, q2)
+            try:
+                s.start(q1, q2)
+            except BaseException:
+                # Stop the members already started, so that nothing is left running.
+                for ss in self._servlets[:i]:
+                    ss.stop()
+                self._qs = []
+                raise
             q1 = q2
         self._q_in = q_in
         self._q_out = q_out
@@ -529,7 +550,14 @@ class EnsembleServlet(Servlet):
                 if s.output_queue_type == 'thread'
                 else _SimpleProcessQueue()
             )
-            s.start(q1, q2)
+            try:
+                s.start(q1, q2)
+            except BaseException:
+                # Stop the members already started, so that nothing is left running.
+                for ss in self._servlets[: len(self._qins)]:
+                    ss.stop()
+                self._reset()
+                raise
             self._qins.append(q1)
             self._qouts.append(q2)
         t = Thread(target=self._dequeue, name=f'{self.__class__.__name__}._dequeue')
@@ -703,7 +731,14 @@ class SwitchServlet(Servlet):
                 if s.input_queue_type == 'thread'
                 else _SimpleProcessQueue()
             )
-            s.start(q1, q_out)
+            try:
+                s.start(q1, q_out)
+            except BaseException:
+                # Stop the members already started, so that nothing is left running.
+                for ss in self._servlets[: len(self._qins)]:
+                    ss.stop()
+                self._reset()
+                raise
             self._qins.append(q1)
 
         self._thread_enqueue = Thread(
